@@ -172,6 +172,9 @@ def gen_cases(ctx):
                 cases.append({"params": p, "pairs": s, "seed": 50 + k})
     for k in range(ctx.scale(40, 500)):
         p = gen_params(ctx, False)
+        if k % 2 == 0:     # regimes in which decisions depend on the rates (see detectors.LFRSpec.gen)
+            p["eta"], p["burn_in"] = ctx.rng.choice([(0.5, 10), (0.5, 20), (0.75, 20), (0.9, 40), (0.99, 50)])
+            p["num_mc"], p["detect"] = 30, ctx.rng.choice([0.05, 0.01])
         length = ctx.rng.randint(100, 160)
         acc = piecewise_bernoulli(ctx.rng, length, [0.95, 0.8, 0.5, 0.2])
         pairs = []
